@@ -1,5 +1,6 @@
 import ParryModel.C09.Model2
 import ParryModel.C09.Model3
+import ParryModel.C09.Model4
 /-!
 # C09 model, part 5 (round fu5): `SimdAabb::transform_by`, `BoundingSphere::tightened`
 -/
@@ -29,5 +30,14 @@ def heightfieldHist3 (b : Aabb3 K) (s0 : V3 K) (ss : List (V3 K)) : Aabb3 K × V
   ss.foldl (fun st sc => (heightfieldRescale3 st.1 st.2 sc, st.2.cmul sc)) (b, s0)
 def heightfieldHist2 (b : Aabb2 K) (s0 : V2 K) (ss : List (V2 K)) : Aabb2 K × V2 K :=
   ss.foldl (fun st sc => (heightfieldRescale2 st.1 st.2 sc, st.2.cmul sc)) (b, s0)
+
+/-! ## `find_root_intervals_to` -/
+
+/-- `find_root_intervals_to(function, init, …, results, candidates)`: `candidates.clear()` (whatever the caller left in
+the workspace is dropped), then the same `push_candidate(init, 0)` + work-list loop, pushing onto the caller's `results`.
+Returns the final `results` (the final `candidates` is empty: the loop ends when the stack is). -/
+def findRootIntervalsTo (f : IFun K) (init : Interval K) (minW minImg : K) (maxRec : Nat) (fuel : Nat)
+    (results0 : List (Interval K)) (_candidates0 : List (Interval K × Nat)) : Option (List (Interval K)) :=
+  rootsLoop f minW minImg maxRec fuel (pushCandidate f minW minImg maxRec init 0 (results0, []))
 
 end Model
